@@ -28,6 +28,19 @@ Theorem C25_numeral_exact_partial : forall s n,
   parse_integer_literal s = Ok n -> denote s = Some n /\ I64_MIN <= n <= I64_MAX.
 Proof. exact parse_integer_literal_exact. Qed.
 
+(* the same for the plainest numerals, with the value spelled out: for every non-empty string
+   of decimal digits (any length, leading zeros allowed) an accepted literal / SKIP / LIMIT
+   count is the decimal value  sum d_i * 10^(k-i)  of the string — never another number *)
+Theorem C25_decimal_exact_partial : forall s,
+  s <> [] -> forallb is_dec s = true ->
+  denote s = Some (dec_value s) /\
+  (forall n, parse_integer_literal s = Ok n -> n = dec_value s) /\
+  (forall n, skip_limit s = Ok n -> Z.of_N n = dec_value s).
+Proof.
+  intros s Hne H. split; [apply denote_decimal; assumption|].
+  split; intros n Hn; [eapply decimal_literal_exact | eapply decimal_count_exact]; eassumption.
+Qed.
+
 (* no conversion panics, whatever the string *)
 Theorem C25_numeral_no_panic_partial : forall s,
   parse_integer_literal s <> Panic /\ skip_limit s <> Panic /\
@@ -94,6 +107,7 @@ Example C25_original_code_refuted :
 Proof. vm_compute. repeat split; reflexivity. Qed.
 
 Print Assumptions C25_numeral_exact_partial.
+Print Assumptions C25_decimal_exact_partial.
 Print Assumptions C25_numeral_no_panic_partial.
 Print Assumptions C25_bounds_exact_partial.
 Print Assumptions C25_bounds_no_panic_partial.
